@@ -93,6 +93,7 @@ func (n *Node) boot() (err error) {
 func (n *Node) Restart() error {
 	n.App = nil
 	n.Restarts++
+	n.DB.ReleaseAll() // the dead process' open iterators (and their locks) die with it
 	return n.boot()
 }
 
